@@ -6,6 +6,7 @@ import (
 	"go/parser"
 	"go/token"
 	"go/types"
+	"reflect"
 	"regexp/syntax"
 	"strconv"
 	"strings"
@@ -296,6 +297,18 @@ func identOf(e ast.Expr) *ast.Ident {
 	default:
 		return nil
 	}
+}
+
+// isNilNode reports whether n is nil or a typed nil pointer.
+//
+// Some captured nodes are typed, but nil: `func $_() $results { $*_ }` may
+// capture a nil *ast.FieldList for a function with no results.
+func isNilNode(n ast.Node) bool {
+	if n == nil {
+		return true
+	}
+	v := reflect.ValueOf(n)
+	return v.Kind() == reflect.Ptr && v.IsNil()
 }
 
 func isTypeParam(typ types.Type) bool {
